@@ -21,6 +21,7 @@ import (
 	"fmt"
 	"math/big"
 	"sort"
+	"strings"
 
 	"github.com/MixinNetwork/mixin/common"
 	"github.com/MixinNetwork/mixin/crypto"
@@ -42,8 +43,9 @@ type supply struct{ total, unconsumed, flow *big.Int }
 
 // observe computes, from the dump and the public read API only, the three
 // quantities of the property for every asset that has a record.
-func observe(st *fin.Store) (map[crypto.Hash]*supply, []crypto.Hash) {
+func observe(st *fin.Store) (map[crypto.Hash]*supply, []crypto.Hash, []string) {
 	d := st.Dump()
+	var unreadable []string // finalized outputs that do not read back as themselves, malformed records
 	res := map[crypto.Hash]*supply{}
 	var order []crypto.Hash
 	get := func(a crypto.Hash) *supply {
@@ -60,6 +62,9 @@ func observe(st *fin.Store) (map[crypto.Hash]*supply, []crypto.Hash) {
 		}
 	}
 	for _, e := range d.Entries {
+		if strings.HasPrefix(e.Family, "MALFORMED") {
+			unreadable = append(unreadable, fmt.Sprintf("%s %x", e.Family, e.Key))
+		}
 		switch e.Family {
 		case "ASSETINFO", "ASSETTOTAL":
 			get(crypto.Hash(e.Key[len(e.Family):]))
@@ -82,6 +87,14 @@ func observe(st *fin.Store) (map[crypto.Hash]*supply, []crypto.Hash) {
 				panic(err)
 			}
 			s := get(ver.Asset)
+			// every output of a finalized transaction is individually readable, with its own amount
+			for _, u := range ver.UnspentOutputs() {
+				got, err := st.S.ReadUTXOLock(u.Hash, u.Index)
+				if err != nil || got == nil || got.Amount.Cmp(u.Amount) != 0 || got.Asset != ver.Asset ||
+					got.Index != u.Index || got.Type != u.Type {
+					unreadable = append(unreadable, fmt.Sprintf("%s:%d", h, u.Index))
+				}
+			}
 			switch {
 			case len(ver.Inputs[0].Genesis) > 0: // genesis allocation
 				for _, o := range ver.Outputs {
@@ -107,11 +120,14 @@ func observe(st *fin.Store) (map[crypto.Hash]*supply, []crypto.Hash) {
 		}
 		s.total = fin.Big(bal)
 	}
-	return res, order
+	return res, order, unreadable
 }
 
 func checkSupply(c *vh.Ctx, cs Case, st *fin.Store, at string) (map[crypto.Hash]*supply, []crypto.Hash) {
-	res, order := observe(st)
+	res, order, unreadable := observe(st)
+	if len(unreadable) > 0 {
+		c.Fail("output-not-readable", fmt.Sprintf("%s: %d outputs of finalized transactions do not read back with their own index / amount (or their record is malformed), e.g. %s", at, len(unreadable), unreadable[0]), cs)
+	}
 	for _, a := range order {
 		s := res[a]
 		if s.total.Cmp(s.flow) != 0 {
@@ -782,6 +798,105 @@ func capacityHistory(c *vh.Ctx, r *vh.Rand, mode int) {
 	se.Finish(fmt.Sprintf("capacity-%d", mode))
 }
 
+// ---- wide transactions: up to the 256 outputs the protocol allows ---------------------------------
+
+func (g *Gen) takeExact(asset, hash string, index uint) (out, bool) {
+	l := g.avail[asset]
+	for i, o := range l {
+		if o.hash == hash && o.index == index && o.owner >= 0 {
+			g.avail[asset] = append(l[:i:i], l[i+1:]...)
+			return o, true
+		}
+	}
+	return out{}, false
+}
+
+func (g *Gen) takeLargest(asset string) (out, bool) {
+	best := -1
+	for i, o := range g.avail[asset] {
+		if o.owner >= 0 && (best < 0 || o.amt.Cmp(g.avail[asset][best].amt) > 0) {
+			best = i
+		}
+	}
+	if best < 0 {
+		return out{}, false
+	}
+	o := g.avail[asset][best]
+	g.avail[asset] = append(g.avail[asset][:best:best], g.avail[asset][best+1:]...)
+	return o, true
+}
+
+// a transfer (or mint) with n script outputs of pairwise distinct amounts
+func wideShape(sum *big.Int, n int) []shapeOut {
+	base := new(big.Int).Sub(sum, big.NewInt(int64(n*(n-1)/2)))
+	q, rem := new(big.Int).DivMod(base, big.NewInt(int64(n)), new(big.Int))
+	var shape []shapeOut
+	for i := 0; i < n; i++ {
+		a := new(big.Int).Add(q, big.NewInt(int64(i)))
+		if i == n-1 {
+			a.Add(a, rem) // the largest: funds the next wide transaction
+		}
+		shape = append(shape, shapeOut{common.OutputTypeScript, a})
+	}
+	return shape
+}
+
+func wideHistory(c *vh.Ctx, r *vh.Rand, widths []int, mintWidth int, label string) {
+	se := &Session{c: c, st: fin.OpenStore()}
+	g := newGen(se, r)
+	asset := g.assets[3]
+	if p := g.admit(g.depositOf(asset, whole(900000))); p != nil {
+		g.finalize([]*ptx{p}, nil)
+	}
+	for _, n := range widths {
+		src, ok := g.takeLargest(asset)
+		if !ok {
+			break
+		}
+		d := draft{kind: fmt.Sprintf("wide-%d", n), asset: asset, sign: []string{g.seeds[src.owner]}, taken: []out{src},
+			inputs: []fin.InSpec{{Kind: "ord", Hash: src.hash, Index: src.index}}, shape: wideShape(src.amt, n)}
+		p := g.admit(d)
+		if p == nil {
+			g.se.c.Count("wide-refused")
+			continue
+		}
+		g.se.c.Count("wide:" + g.finalize([]*ptx{p}, nil))
+		// spend outputs at high indexes (both members of every aliasing-prone pair 128+k / 192+k, the boundaries)
+		var batch []*ptx
+		for _, idx := range []int{63, 64, 127, 128, 129, 191, 192, 193, 128 + r.Intn(64), 192 + r.Intn(64), n - 2} {
+			if idx < 0 || idx >= n-1 {
+				continue
+			}
+			o, ok := g.takeExact(asset, p.hash, uint(idx))
+			if !ok {
+				continue
+			}
+			half := new(big.Int).Div(o.amt, big.NewInt(2))
+			sd := draft{kind: "spend-high-index", asset: asset, sign: []string{g.seeds[o.owner]}, taken: []out{o},
+				inputs: []fin.InSpec{{Kind: "ord", Hash: o.hash, Index: o.index}},
+				shape:  []shapeOut{{common.OutputTypeScript, half}, {common.OutputTypeScript, new(big.Int).Sub(o.amt, half)}}}
+			if sp := g.admit(sd); sp != nil {
+				batch = append(batch, sp)
+			} else {
+				g.se.c.Count("spend-high-index-refused")
+			}
+		}
+		if len(batch) > 0 {
+			g.se.c.Count("spend-high-index:" + g.finalize(batch, nil))
+		}
+	}
+	if mintWidth > 0 { // a wide mint allocation of XIN
+		d := g.mintOf(whole(20000))
+		d.kind = fmt.Sprintf("wide-mint-%d", mintWidth)
+		d.shape = wideShape(whole(20000), mintWidth)
+		if p := g.admit(d); p != nil {
+			g.se.c.Count("wide:" + g.finalize([]*ptx{p}, nil))
+		}
+	}
+	g.snapshot(3)
+	se.Finish(label)
+}
+
 func (g *Gen) snapshot(size int) {
 	for tries := 0; len(g.pending) < size && tries < 8*size+10; tries++ {
 		g.newTx()
@@ -887,11 +1002,19 @@ func main() {
 	for m := 0; m < 3; m++ {
 		capacityHistory(c, c.Rng.Fork(fmt.Sprintf("cap%d", m)), m)
 	}
+	// corpus: wide transactions (the protocol allows 256 outputs) with pairwise distinct amounts, then spends of
+	// high-index outputs; every output must stay individually readable and the scan must match the total
+	wideHistory(c, c.Rng.Fork("wide-a"), []int{193, 256}, 0, "wide-193-256")
+	wideHistory(c, c.Rng.Fork("wide-b"), []int{129, 255}, 200, "wide-129-255-mint200")
 	history(c, c.Rng.Fork("short"), 2, 2, "history-short")
 	history(c, c.Rng.Fork("long"), c.Scale(12, 100), 4, "history-long")
 	n := c.Scale(4, 200)
 	for i := 0; i < c.Scale(0, 30); i++ {
 		capacityHistory(c, c.Rng.Fork(fmt.Sprintf("capr%d", i)), i%3)
+	}
+	for i := 0; i < c.Scale(0, 12); i++ {
+		ws := []int{64, 128, 129, 192, 193, 255, 256}
+		wideHistory(c, c.Rng.Fork(fmt.Sprintf("wider%d", i)), []int{ws[c.Rng.Intn(len(ws))], c.Rng.Range(60, 256), ws[c.Rng.Intn(len(ws))]}, c.Rng.Range(0, 256), "wide-random")
 	}
 	for i := 0; i < n; i++ {
 		history(c, c.Rng.Fork(fmt.Sprintf("h%d", i)), c.Rng.Range(3, 8), 8, "history")
